@@ -180,6 +180,29 @@ def make_extremes(t, byteorder, wordorder):
     return extremes
 
 
+def make_text(byteorder, wordorder):
+    """add_string called with TEXT (str, any code points, not bytes): the builder packs its UTF-8 encoding; it is
+    recovered by decode_string over that many bytes and the value packed after it is still found at its place"""
+    def text(s: str, v: bytes) -> bool:
+        from pymodbus.payload import BinaryPayloadBuilder, BinaryPayloadDecoder
+        assume(len(s) == 2 and len(v) == 2)
+        raw = s.encode("utf-8")
+        n = len(raw)
+        b = BinaryPayloadBuilder(byteorder=byteorder, wordorder=wordorder)
+        b.add_string(s)
+        b.add_16bit_uint(be_int(v))
+        img = b.to_string()
+        if len(img) != n + 2:
+            explain("text of %d UTF-8 bytes packed into %d bytes", n, len(img) - 2)
+            return False
+        d = BinaryPayloadDecoder(img, byteorder=byteorder, wordorder=wordorder)
+        if d.decode_string(n) != raw:
+            explain("text not recovered")
+            return False
+        return d.decode_16bit_uint() == be_int(v)
+    return text
+
+
 def make_misc(byteorder, wordorder):
     """less-travelled API: skip_bytes, reset (builder and decoder), strings of odd length, a 16-bit group of bits,
     a builder seeded with an existing payload, to_registers on an odd total length"""
@@ -244,6 +267,9 @@ def obligations(tier):
                                    list(types), sum(TYPES[t][0] for t in types), bo, wo)))
     for bo in (">", "<"):
         for wo in (">", "<"):
+            if (bo, wo) in ((">", ">"), ("<", "<")) or tier != "quick":
+                out.append(Obl("text.byte%s.word%s" % ("BE" if bo == ">" else "LE", "BE" if wo == ">" else "LE"), make_text(bo, wo), timeout=T,
+                               bounds="add_string with a 2-character text string (str, every code point) followed by a symbolic u16: packed as its UTF-8 bytes, recovered, following value in place"))
             out.append(Obl("misc.byte%s.word%s" % ("BE" if bo == ">" else "LE", "BE" if wo == ">" else "LE"), make_misc(bo, wo), timeout=T,
                            contracts=("bits",), bounds="u16 + 5-byte string + 16 bits (9 symbolic bytes): skip_bytes, decoder/builder reset, odd total length via registers, builder seeded with a payload"))
     for t in ("f16", "f32", "f64"):
